@@ -17,7 +17,7 @@ ClientSession.Close; the server side's reaction to stdin EOF).
   5. verdict    spec/CmdCloseMon.tla over the observations.  Predicates that depend on time are re-run alone and only
                 reported when they fail again (a loaded machine is not a defect); drift = outcome not in the model's set.
 """
-import json, os, random, tempfile
+import json, os, random, shutil, tempfile
 import vlib
 
 PID = "X04"
@@ -72,7 +72,31 @@ def design(v, tier):
     if r.error:
         raise vlib.MachineryError("lead config: %s" % r.error)
     v.cov["lead_D1_in_model"] = (r.violation == "FaithfulIdeal")
+    if tier == "thorough":
+        # unbounded in the length of behaviours AND in TD: Apalache discharges the inductive invariant CmdClose!IndInv (every
+        # invariant of CmdClose_mc*.cfg, Determined included) for all 664 classes, Slack 0 or 1 and ANY TD that is a positive
+        # multiple of 8 (spec/CmdCloseInd.tla: CInit, IndInit)
+        ra = apalache_inductive("CmdCloseInd", "CInit", "IndInit", "IndInv")
+        v.cov.setdefault("apalache_inductive", []).append(ra)
+        if ra["status"] == "refuted":
+            raise vlib.MachineryError("CmdClose: IndInv is not inductive (%s)" % ra.get("detail"))
     return r.violation == "FaithfulIdeal"
+
+
+def apalache_inductive(module, cinit, indinit, inv):
+    """vlib.run_apalache_inductive over a copy of spec/ that also holds the typed stub of Json.tla (CmdCloseMC EXTENDS Json,
+    which Apalache cannot type: spec/apalache_stubs/).  Called from design(), where no TLC thread of this check is running."""
+    d = own_wd()
+    for src in (vlib.SPEC, os.path.join(vlib.SPEC, "apalache_stubs")):
+        for f in os.listdir(src):
+            if f.endswith(".tla"):
+                shutil.copy(os.path.join(src, f), d)
+    old = vlib.SPEC
+    vlib.SPEC = d
+    try:
+        return vlib.run_apalache_inductive(module, cinit, indinit, inv, timeout=600)
+    finally:
+        vlib.SPEC = old
 
 
 def ckey(c):
